@@ -140,6 +140,27 @@ struct Universe {
         for (int t = 0; t < 2; ++t) { std::vector<uint8_t> b(16, (uint8_t)(0x31 + t)); b[0] = 0xfc; add(CService(FromV2(6, b), 8333), "cjdns"); }
         add(CService(V4(10, 0, 0, 1), 8333), "rfc1918");
         add(CService(V4(127, 0, 0, 1), 8333), "local");
+        // cross-network collisions in the tried table (appended, so that the indices above stay stable): an IPv6 address sharing the
+        // tried slot of the first IPv4 root, and IPv6 addresses sharing the tried slot of a Tor and of a CJDNS address
+        {
+            std::map<std::pair<int, int>, std::vector<CService>> v6;
+            for (int g = 0; g < 700; ++g) for (int h = 0; h < 300; ++h) {
+                CService c(FromV2(2, {0x2a, 0x01, (uint8_t)(g >> 8), (uint8_t)g, 0, 0, 0, 0, 0, 0, 0, 0, 0, 0, (uint8_t)(h >> 8), (uint8_t)h}), 8333);
+                v6[tslot(c)].push_back(c);
+            }
+            auto cross = [&](int k, const char* what) {
+                auto it = v6.find(tslot(keys.at(k)));
+                if (it == v6.end()) return;
+                std::vector<int> cl{k};
+                for (const auto& c : it->second) { if (cl.size() < 3) cl.push_back(add(c, what)); }
+                cls("X", cl);
+            };
+            int tor = -1, cj = -1;
+            for (size_t k = 0; k < keys.size(); ++k) { if (desc[k] == "tor" && tor < 0) tor = k; if (desc[k] == "cjdns" && cj < 0) cj = k; }
+            cross(0, "x6v4");
+            if (tor >= 0) cross(tor, "x6tor");
+            if (cj >= 0) cross(cj, "x6cjdns");
+        }
         // self-announcement: a source equal to the address of key 0; a second source in source 0's group
         srcs.push_back(static_cast<const CNetAddr&>(keys[0]));
         srcs.push_back(V4(250, 100, 7, 7));
